@@ -569,4 +569,6 @@ def all_shapes():
         Shape("rbac-g/enforcer", RBAC, "g", "g", G_RULES),
         Shape("rbac-g/unit", RBAC, "g", "g", G_RULES, level="unit"),
         Shape("dom-g/enforcer", DOM, "g", "g", GD_RULES),
+        # values containing the separator: different rules whose comma-joined texts are equal
+        Shape("acl-comma/enforcer", ACL, "p", "p", [["team,blue", "report", "read"], ["team", "blue,report", "read"], ["team,blue", "report,read", ""]]),
     ]
